@@ -20,6 +20,7 @@ import (
 	"github.com/LemoFoundationLtd/lemochain-core/common"
 	"github.com/LemoFoundationLtd/lemochain-core/common/crypto"
 	"github.com/LemoFoundationLtd/lemochain-core/common/flag"
+	"github.com/LemoFoundationLtd/lemochain-core/common/subscribe"
 	"github.com/LemoFoundationLtd/lemochain-core/store"
 )
 
@@ -132,11 +133,12 @@ func (n *Net) Shutdown() {
 	for t := range n.Nodes {
 		tags = append(tags, t)
 	}
-	sort.Ints(tags) // map order must not decide the order of the shutdown tasks (event-log digest)
+	sort.Ints(tags)
 	for _, t := range tags {
 		nd := n.Nodes[t]
 		if nd.Alive {
 			n.C.W.Do(nd.Tag, nd.Name+".shutdown", func() {
+				defer func() { recover() }() // the scenario may have closed it already
 				if nd.BC != nil {
 					nd.BC.Stop()
 				}
@@ -150,6 +152,7 @@ func (n *Net) Shutdown() {
 	for _, f := range n.factories {
 		f := f
 		n.C.W.Do(f.Tag, "factory.shutdown", func() {
+			defer func() { recover() }() // the scenario may have closed it already
 			if f.DB != nil {
 				f.DB.Close()
 			}
@@ -212,6 +215,9 @@ func (n *Net) AddNode(tag int, name string, self *keyInfo) *Node {
 // Start builds the node the way main/node.New does, on whatever its disk holds.
 // It must run in a task tagged with the node (use StartNode from the world).
 func (nd *Node) start() {
+	// a fresh process has an empty event bus: drop the subscriptions of a dead incarnation
+	// (this also creates the node-local bus in the start task, ahead of all its goroutines)
+	subscribe.ClearSub()
 	deputynode.SetSelfNodeKey(nd.Self.Key)
 	nd.DB = store.NewChainDataBase(nd.Home)
 	if _, err := nd.DB.GetBlockByHeight(0); err != nil {
@@ -338,6 +344,7 @@ type Factory struct {
 	Asm    *consensus.BlockAssembler
 	Blocks map[common.Hash]*types.Block
 	Kids   map[common.Hash][]common.Hash
+	GasLimitOverride uint64 // when non-zero the next Mine uses this header gas limit
 }
 
 type factoryLoader struct{ db *store.ChainDatabase }
@@ -387,6 +394,9 @@ func (f *Factory) Mine(d int, parent *types.Block, ts uint32, txs types.Transact
 			return
 		}
 		header.Time = ts
+		if f.GasLimitOverride != 0 {
+			header.GasLimit = f.GasLimitOverride
+		}
 		blk, invalid, err = f.Asm.MineBlock(header, txs, 10000)
 		if err != nil {
 			return
